@@ -140,4 +140,11 @@ example : (RSys.run RSys.fixed legacyCfg [.deliver 0, .thread 1, .thread 1]).map
 (wake-up message, routed message, wake-up channel closed, routed channel closed) — regenerated from `src/router.rs` -/
 theorem C17_shape : Gen.routerRunArms = 4 := by decide
 
+/-- **C17_code_variant** — the source as it is now is the variant the theorems of this file are about: a wake-up clears the flag and
+then serves the whole queue; the `Shutdown` arm drops the handlers, then acknowledges, then ends the thread; a closed wake-up
+channel has its own arm; `shutdown` awaits the acknowledgement after the locked block; `add_route` locks, checks for a late
+offer, queues the request and wakes the router, in this order; wake-ups are coalesced through the shared flag. -/
+theorem C17_code_variant : Router.codeVariant = Router.fixed ∧ RSys.codeVariant = RSys.fixed ∧ Gen.shape_shutdownOrder = true ∧
+    Gen.shape_shutdownIdempotent = true ∧ Gen.shape_addRouteOrder = true ∧ Gen.shape_wakeCoalesced = true := by decide
+
 end C17
